@@ -11,7 +11,7 @@ ENV = dict(os.environ, GOFLAGS="-mod=mod", GOPROXY="off", GOSUMDB="off", GOTOOLC
 OWNERS = {
     "C01a": ["C02", "C01"], "C01b": ["C08"], "C02a": ["C02"], "C02b": ["C02"], "C03a": ["C03", "C05"], "C03b": ["C03", "C05"],
     "C04a": ["C04"], "C04b": ["C01"], "C05a": ["C05"], "C05b": ["C05"], "C06a": ["C06"], "C06b": ["C06", "C13"],
-    "C07a": ["C06"], "C07b": ["C07"], "C08a": ["C08", "C01"], "C08b": ["C08"], "C09a": ["C09"], "C09b": ["C09"],
+    "C07a": ["C06"], "C07b": ["C07"], "C08a": ["C08", "C01"], "C08b": ["C08", "C13"], "C09a": ["C09"], "C09b": ["C09"],
     "C10a": ["C10"], "C10b": ["C10"], "C11a": ["C11"], "C11b": ["C11"], "C12a": ["C12"], "C12b": ["C12"],
     "C13a": ["C06"], "C13b": ["C13"], "C16a": ["C16"], "C16b": ["C16"], "C18a": ["C18"], "C18b": ["C18"], "C19a": ["C19"], "C19b": ["C19"],
 }
